@@ -77,7 +77,7 @@ func diffStrings(a, b []string) string {
 func runFED08(r *core.Run) {
 	const prop = "C08"
 	W := r.W
-	e := newFedEnv(r, true)
+	e := newFedEnvA(r, true, fedAbstractMode(r))
 	o := fedEngineOpts{multiFetch: W.Prob(0.5), scheduleFetches: W.Prob(0.5)}
 	ctx, cancel := context.WithCancel(context.Background())
 	defer cancel()
@@ -137,20 +137,20 @@ func runFED08(r *core.Run) {
 			r.Fail(prop, "invalid-subgraph-request", "", "schedule %d: %s\noperation: %s vars=%s\n%s", k, e.viol[0], op.Query, op.Vars, e.describe())
 		}
 		if !s.valid || s.data != want {
-			r.Fail(prop, "data-depends-on-schedule", "reference", "schedule %d (strategy %d): data differs from the reference\noperation: %s vars=%s\ngot:  %s\nwant: %s\n%s", k, r.Strategy, op.Query, op.Vars, s.data, want, e.describe())
+			r.Fail(prop, "data-depends-on-schedule", "reference"+sharedKeyShape(op.Query), "schedule %d (strategy %d): data differs from the reference\noperation: %s vars=%s\ngot:  %s\nwant: %s\n%s", k, r.Strategy, op.Query, op.Vars, s.data, want, e.describe())
 		}
 		if k == 0 {
 			first = s
 			continue
 		}
 		if s.data != first.data {
-			r.Fail(prop, "data-depends-on-schedule", "cross", "schedules 0 and %d give different data\noperation: %s vars=%s\n0: %s\n%d: %s", k, op.Query, op.Vars, first.data, k, s.data)
+			r.Fail(prop, "data-depends-on-schedule", "cross"+sharedKeyShape(op.Query), "schedules 0 and %d give different data\noperation: %s vars=%s\n0: %s\n%d: %s", k, op.Query, op.Vars, first.data, k, s.data)
 		}
 		if strings.Join(s.errs, "\n") != strings.Join(first.errs, "\n") {
-			r.Fail(prop, "errors-depend-on-schedule", "", "schedules 0 and %d give different error multisets\n%s", k, diffStrings(first.errs, s.errs))
+			r.Fail(prop, "errors-depend-on-schedule", sharedKeyShape(op.Query), "schedules 0 and %d give different error multisets\n%s", k, diffStrings(first.errs, s.errs))
 		}
 		if strings.Join(s.reqs, "\n") != strings.Join(first.reqs, "\n") {
-			r.Fail(prop, "requests-depend-on-schedule", "", "schedules 0 and %d sent different subgraph requests (a planned request missing, duplicated or built from incomplete data)\noperation: %s vars=%s\n%s\n%s", k, op.Query, op.Vars, diffStrings(first.reqs, s.reqs), e.describe())
+			r.Fail(prop, "requests-depend-on-schedule", sharedKeyShape(op.Query), "schedules 0 and %d sent different subgraph requests (a planned request missing, duplicated or built from incomplete data)\noperation: %s vars=%s\n%s\n%s", k, op.Query, op.Vars, diffStrings(first.reqs, s.reqs), e.describe())
 		}
 	}
 	r.Strategy = base
@@ -171,7 +171,7 @@ func reqKey(q *fedRequest) string { return fmt.Sprintf("s%d|%s", q.sub, q.query)
 func runFED07(r *core.Run) {
 	const prop = "C07"
 	W := r.W
-	e := newFedEnv(r, true)
+	e := newFedEnvA(r, true, fedAbstractMode(r))
 	o := fedEngineOpts{multiFetch: W.Prob(0.3), scheduleFetches: W.Prob(0.3)}
 	// ValidateRequiredExternalFields is the repository's opt-in guard against forwarding a failed
 	// @requires input; both configurations are explored
@@ -389,6 +389,14 @@ func runFED07(r *core.Run) {
 		return
 	}
 	if exact {
+		// the exact model computes the expected data from the reference monolith: it applies only
+		// when the gateway's fault-free answer is the monolith's (anything else is C01's business)
+		if ref0, err := e.monolith(op, op.Query, nil); err != nil || canonJSON(mustJSON(ref0.Data)) != s0.data {
+			exact = false
+			r.Probe("fault_free_run_differs_from_reference")
+		}
+	}
+	if exact {
 		mask := func(ambiguousFails bool) func(t, id, f string) bool {
 			return func(t, id, f string) bool {
 				pos := t + "|" + id + "|" + f
@@ -576,7 +584,7 @@ func renameVars(op *fedOp) *fedOp {
 func runFED09(r *core.Run) {
 	const prop = "C09"
 	W := r.W
-	e := newFedEnv(r, true)
+	e := newFedEnvA(r, true, fedAbstractMode(r))
 	o := fedEngineOpts{multiFetch: W.Prob(0.5), scheduleFetches: W.Prob(0.5)}
 	minify := W.Prob(0.5)
 	noDedup := W.Prob(0.3)
@@ -641,7 +649,7 @@ func runFED09(r *core.Run) {
 		if m == 0 {
 			firstReqs = s.reqs
 		} else if strings.Join(firstReqs, "\n") != strings.Join(s.reqs, "\n") {
-			r.Fail(prop, "plan-nondeterministic", "", "two planner instances produced different subgraph requests for the same operation and configuration\noperation: %s vars=%s\n%s\n%s", op0.Query, op0.Vars, diffStrings(firstReqs, s.reqs), e.describe())
+			r.Fail(prop, "plan-nondeterministic", sharedKeyShape(op0.Query), "two planner instances produced different subgraph requests for the same operation and configuration\noperation: %s vars=%s\n%s\n%s", op0.Query, op0.Vars, diffStrings(firstReqs, s.reqs), e.describe())
 		}
 	}
 	// (b) histories on one shared engine with option set O
@@ -722,7 +730,7 @@ func runFED09(r *core.Run) {
 				got = e.summarize(sl.x, nil)
 			}
 			if got.data != tw.data || got.hasErr != tw.hasErr || strings.HasPrefix(got.body, "ERR:") != strings.HasPrefix(tw.body, "ERR:") {
-				r.Fail(prop, "history-changes-response", "", "request %d of a history on a shared engine (multiFetch=%v scheduleFetches=%v minify=%v dedupOff=%v smallCache=%v) differs from the same request alone on a fresh default engine\noperation: %s vars=%s\nshared: %s\nfresh:  %s\n%s",
+				r.Fail(prop, "history-changes-response", sharedKeyShape(sl.op.Query), "request %d of a history on a shared engine (multiFetch=%v scheduleFetches=%v minify=%v dedupOff=%v smallCache=%v) differs from the same request alone on a fresh default engine\noperation: %s vars=%s\nshared: %s\nfresh:  %s\n%s",
 					sl.seq, o.multiFetch, o.scheduleFetches, minify, noDedup, smallCache, sl.op.Query, sl.op.Vars, got.body, tw.body, e.describe())
 			}
 		}
